@@ -205,3 +205,50 @@ macro_rules! c20_fill {
         });
     };
 }
+
+/// unbiasedness for CONCRETE bounds on 32- and 64-bit types (the range multiplication is a multiplication by a constant; the relational statement is
+/// the one of `c20_unbiased`): word L(h1)+k is accepted with offset h1 iff word L(h2)+k is accepted with offset h2, L(h) = ceil(h * 2^W / R).
+#[macro_export]
+macro_rules! c20_unbiased_conc {
+    ($name:ident, $unw:expr, $T:ty, $D:ty, $N:expr, $single:expr, [$($lo:expr),*], [$($hi:expr),*]) => {
+        $crate::harness!($name, $unw, {
+            use $crate::util::*;
+            use rand::distributions::{Distribution, Uniform};
+            use rand::distributions::uniform::{UniformSampler, SampleUniform};
+            const W: u32 = <$D>::BITS * $N;
+            let ld: [$D; $N] = [$($lo),*];
+            let hd: [$D; $N] = [$($hi),*];
+            let (low, high) = (<$T as BN<$D, $N>>::mk(ld), <$T as BN<$D, $N>>::mk(hd));
+            let mask: u128 = (1u128 << W) - 1;
+            let (lv, hv) = (dval_u128(&ld), dval_u128(&hd));
+            let rsize: u128 = (hv.wrapping_sub(lv) & mask) + 1; // 1..2^W - 1 (the full range is not used here)
+            let (h1, h2, k): (u64, u64, u64) = ($crate::nd::nd(), $crate::nd::nd(), $crate::nd::nd());
+            $crate::nd::assume((h1 as u128) < rsize && (h2 as u128) < rsize && (k as u128) <= mask);
+            // L(h) = ceil(h * 2^W / R), introduced as a fresh value with its defining inequalities (multiplications by the constant R instead of a 128-bit division)
+            let first = |h: u64| -> u128 {
+                let l: u128 = $crate::nd::nd();
+                $crate::nd::assume(l <= mask + 1);
+                $crate::nd::assume(l * rsize >= (h as u128) << W);
+                $crate::nd::assume(l == 0 || (l - 1) * rsize < (h as u128) << W);
+                l
+            };
+            let (w1, w2) = (first(h1) + k as u128, first(h2) + k as u128);
+            let run = |w: u128, h: u64| -> bool {
+                if w > mask { return false; }
+                let mut rng = $crate::c20::SymRng::new(2);
+                let r: $T = if $single { <<$T as SampleUniform>::Sampler as UniformSampler>::sample_single_inclusive(low, high, &mut rng) }
+                            else { Uniform::new_inclusive(low, high).sample(&mut rng) };
+                let mut word = 0u128;
+                let mut b = 0;
+                while b < (W / 8) as usize { word |= (rng.log[b] as u128) << (8 * b as u32); b += 1; }
+                $crate::nd::assume(word == w);
+                rng.calls == 1 && dval_u128(&r.dg()) == (lv.wrapping_add(h as u128) & mask)
+            };
+            let a1 = run(w1, h1);
+            let a2 = run(w2, h2);
+            assert!(a1 == a2, "every offset has the same number of accepted RNG words");
+            $crate::reach!(a1 && h1 != h2 && k > 0, "accepted pair");
+            $crate::reach!(!a1 && w1 <= mask && w2 <= mask && h1 != h2, "rejected pair");
+        });
+    };
+}
